@@ -131,3 +131,30 @@ def canon_text(text: str) -> str:
     except SyntaxError:
         return text
     return ast.unparse(_SortMult().visit(tree)).replace(" ", "")
+
+
+def reaching_values(fn: ast.AST, name: str, at: ast.stmt, cfg=None) -> List[Optional[ast.expr]]:
+    """Values (None = not a plain assignment) of the definitions of local `name` that reach statement `at` on some path."""
+    from .cfg import build_cfg
+    cfg = cfg or build_cfg(fn)
+    defs = assignments(fn).get(name, [])
+    try:
+        target = cfg.node_of(at).id
+    except Exception:
+        return [v for _, v in defs]
+    ids = []
+    for st, v in defs:
+        try:
+            ids.append((cfg.node_of(st).id, v))
+        except Exception:
+            ids.append((None, v))
+    out = []
+    for nid, v in ids:
+        if nid is None:
+            out.append(v)
+            continue
+        others = {i for i, _ in ids if i is not None and i != nid}
+        start = [s for s, _ in cfg.succ[nid]]
+        if any(s == target or cfg.path(s, target, skip=others, skip_edges=("exc",)) is not None for s in start if s not in others):
+            out.append(v)
+    return out
